@@ -76,7 +76,7 @@ pub fn soft_mask_for(profile: &str) -> u32 {
         "C06" => S_COUNT,
         "C08" => S_LEDGER,
         "C10" => S_ALL,
-        "C11" => S_WEAK | S_COUNT | S_PANIC,
+        "C11" => S_WEAK | S_COUNT | S_PANIC | S_LEAK,
         "C12" => S_LEAK | S_COUNT | S_LEDGER | S_COLLECT,
         "C14" => S_COST,
         "C15" => S_VISITS,
@@ -188,6 +188,11 @@ pub fn attribute(kind: &str, out: &mut [&'static str; 6]) -> usize {
             push("C04", &mut n);
             if consuming {
                 push("C12", &mut n);
+            }
+            // memory that is not part of the interrupted teardown must come back also when a
+            // panic was in flight (the accounting already exempts the interrupted members)
+            if panic {
+                push("C11", &mut n);
             }
         }
         "upgrade-wrong" | "dead-weak-counts" | "weak-resurrect" | "weak-counts" => {
